@@ -132,6 +132,10 @@ class HoppingParams:
 		if ma_len == 0: # TODO: or rather > 1?
 			raise ValueError("Mobile Allocation is empty")
 
+		# RNTABLE is indexed by (HSN xor T1R) + T3, HSN is a 6 bit value
+		if hsn not in range(0, 64):
+			raise ValueError("HSN %d is out of range" % hsn)
+
 		self.hsn = hsn
 		self.maio = maio
 		self.ma = ma
